@@ -77,6 +77,41 @@ def events(src, n):
         yield ev
 
 
+def unit_order_events(src, n, rng, orders=6, only=None):
+    """(G) cfg_eliminate_unit_rules under FORCED visiting orders of `for A in V` (hook _verif.ordered): the same
+    grammar under several permutations of its variables; each result is judged and its trace compared with the model"""
+    import itertools
+    import gambatools.cfg_algorithms as ca
+    from gambatools import _verif
+    from ..schedule_replay import OrderChooser
+    if not _verif.ON:
+        return
+    G = cfgsrc.build(src)
+    perms = list(itertools.permutations(sorted(str(v) for v in G.V)))
+    if only is not None:
+        perms = [tuple(only)]
+    else:
+        rng.shuffle(perms)
+    for perm in perms[:orders]:
+        G = cfgsrc.build(src)
+        pre = ab.cfg(G)
+        ch = OrderChooser("unit.var", list(perm))
+        _verif.CHOOSER = ch
+        _verif.take()
+        try:
+            R, exc = guarded(lambda: ca.cfg_eliminate_unit_rules(G), 20)
+        finally:
+            _verif.CHOOSER = None
+        tr = _verif.take()
+        ev = {"op": "chomsky_phase", "phase": 3, "pre": pre, "post": ab.cfg(G), "exc": exc, "n": n,
+              "src": dict(src, n=n, unit_order=list(perm))}
+        if exc == "none":
+            ev["res"] = ab.cfg(R)
+            yield {"op": "unit_trace", "pre": pre, "res": ab.cfg(R),
+                   "order": [ab.enc(t["A"]) for t in tr if t["ev"] == "unit.var"], "src": dict(src, n=n, unit_order=list(perm))}
+        yield ev
+
+
 def with_other_start(src):
     """the same rules, another start variable (a grammar that differs from `src` only in its start)"""
     lhs = sorted({r[0] for r in src["rules"]})
@@ -93,6 +128,14 @@ def drive(task):
     if task["kind"] == "small":
         for i, rules in enumerate(cfgsrc.small_grammars(3)):
             if i % task["parts"] == task["part"] and (i // task["parts"]) % task["stride"] == 0:
+                yield from events({"kind": "cfg_rules", "rules": [list(r) for r in rules]}, task["n"])
+        if task["part"] in (1, 2):
+            rng = random.Random(task["part"])
+            for src in cfgsrc.unit_cycle_srcs(rng, 18 if task["stride"] > 1 else 72):
+                yield from events(src, task["n"])
+                yield from unit_order_events(src, task["n"], rng)
+        if task["part"] == 3:
+            for rules in cfgsrc.LONG_RHS:
                 yield from events({"kind": "cfg_rules", "rules": [list(r) for r in rules]}, task["n"])
         if task["part"] == 0:
             for rules in cfgsrc.SPECIAL:
@@ -121,6 +164,10 @@ def redrive(src):
         yield from schedule_replay.replay_line(src["line"])
         return
     n = src.pop("n", 3)
+    order = src.pop("unit_order", None)
+    if order is not None:
+        yield from unit_order_events(src, n, None, only=order)
+        return
     yield from events(src, n)
 
 
